@@ -284,7 +284,7 @@ type c38Route struct {
 	Resource string // filter / cursor family
 	Params   []c38Param
 	Write    bool // accepts Idempotency-Key
-	Target   string // ledger whose digest matters most ("" = l1)
+	Shards   int    // >1: the systematic mutants of each variant are split over that many cases (long, crash-prone routes)
 }
 
 var (
@@ -366,6 +366,7 @@ func c38Routes() []*c38Route {
 	}
 	var rs []*c38Route
 	add := func(r *c38Route) { rs = append(rs, r) }
+	shard := func(n int, r *c38Route) *c38Route { r.Shards = n; return r }
 
 	// ----- v2, system level
 	add(mk("GET /v2/_info", 1, "", "", false, nil, func(s *c38State, v int) c38Req { return c38New("GET", "/v2/_info") }))
@@ -441,9 +442,9 @@ func c38Routes() []*c38Route {
 	add(mk("GET /v2/{ledger}/logs", 4, "filter", "logs", false, c38PV2List, func(s *c38State, v int) c38Req {
 		return c38WithFilter(s, c38New("GET", "/v2", c38L(), "logs").q("pageSize", "2"), "logs", v)
 	}))
-	add(mk("POST /v2/{ledger}/logs/import", 1, "import", "", false, nil, func(s *c38State, v int) c38Req {
+	add(shard(12, mk("POST /v2/{ledger}/logs/import", 1, "import", "", false, nil, func(s *c38State, v int) c38Req {
 		return c38New("POST", "/v2", c38P("ledger", "@@NEWLEDGER@@"), "logs/import").raw(strings.Join(s.export, "\n") + "\n").h("Content-Type", "application/octet-stream")
-	}))
+	})))
 	add(mk("POST /v2/{ledger}/logs/export", 1, "", "", false, nil, func(s *c38State, v int) c38Req { return c38New("POST", "/v2", c38L(), "logs/export") }))
 
 	add(mk("GET /v2/{ledger}/accounts", 6, "filter", "accounts", false, c38PV2List, func(s *c38State, v int) c38Req {
@@ -606,7 +607,7 @@ func c38Routes() []*c38Route {
 		}
 		return r.json(c38ScriptBody(true))
 	}))
-	add(mk("POST /{ledger}/transactions/batch", 1, "json", "", false, nil, func(s *c38State, v int) c38Req {
+	add(mk("POST /{ledger}/transactions/batch", 1, "", "", false, nil, func(s *c38State, v int) c38Req {
 		return c38New("POST", c38L(), "transactions/batch").json(c38Obj("transactions", c38Arr(c38PostingsBody(s))))
 	}))
 	add(mk("GET /{ledger}/transactions/{id}", 1, "", "", false, c38cat(c38PPitOot, []c38Param{{"expand", "expand"}}), func(s *c38State, v int) c38Req {
